@@ -15,6 +15,10 @@ NA = {
  "C19": "strategy applicability is a pure function of the basis",
 }
 CHECKS = {
+ "C20": dict(engine="histsim+simfs", category="fault_enumeration", design_ref="DESIGN.md section 3 / C20",
+   text="Three parts. (1) Shipped data: complete enumeration - every shipped file is read through the real read_bisc_file and every level 0..N is compared with an independent definition of the named property on all n! permutations (about 1.9 million pairs, full stated length in both tiers). (2) Seeded write/read/store/load histories on an in-memory file system behind the modules' open / Path / os, strict oracle: a read returns exactly the dataset last written under that name, a never-written name is reported invalid, every automaton loaded from the database (also unions, also after restarts and chdir) is language-equivalent to a fresh computation; a sample of the histories also runs on a real temporary directory and must observe the same. (3) The same histories under injected faults: for histories of at most 6 operations every single-fault placement (each I/O call x error/crash x three write offsets), for longer ones seeded placements of up to 3 faults, plus power-loss restarts; relaxed oracle: old, new or reported invalid - never other data, never an automaton of another language.",
+   note="Trusted: ref/families.py (independent definitions pinned by OEIS sequences), ref/dfa.py (product BFS), the simfs model (validated against a real directory on sampled histories), PinWords.make_dfa_for_perm of the tree under test as the 'fresh computation'. Two emptied shipped files are listed known findings.",
+   technique="deterministic simulation of storage histories on a fault-injecting in-memory file system (single-fault enumeration + seeded multi-fault search + power loss), reference-model oracle; complete enumeration for the shipped data"),
  "C08": dict(engine="histsim+allocsim", category="exploration", design_ref="DESIGN.md section 3 / C08",
    text="Seeded search over histories of hash / set / dict / comparison / sort operations on a pool of Perm, MeshPatt, Bivincular/Vincular/CovincularPatt, Basis and MeshBasis objects (most with an equal twin built by another route), with allocation-history faults between any two observations: slot objects of chosen pymalloc size classes held and released, temporaries churned, deep recursion, gc, equal objects rebuilt, and id reuse (an object freed and a different one built at its address). Invariants after every step: first-observed hash never changes, equality matches the abstract value both ways, equal implies equal hash, lookups through twins succeed, trichotomy / antisymmetry / transitivity / sort stability of the order, (length, lexicographic) order for permutations. Every run ends with all objects hashed before and after a block of every small size class is taken. Batches also run under two other PYTHONHASHSEED values.",
    note="Trusted: abstract values computed from the JSON descriptors. The simulator chooses allocation events, not addresses: exposing an address-derived hash relies on pymalloc reusing a freed block (robust in practice). Cross-kind order (Perm vs mesh) is not demanded by the property and not checked.",
